@@ -177,8 +177,8 @@ def outcome_label(mode, res, verdict):
 
 
 def nontrivial(res):
-    """A real rule: the run produced a diagnostic, or wrote all three outputs."""
-    return bool(res.mask & (N_ERROR | N_WARN)) or res.outmask == 7 or res.errlen > 0
+    """A real rule: the run produced an error/warning diagnostic, or wrote all three outputs."""
+    return bool(res.mask & (N_ERROR | N_WARN)) or res.outmask == 7
 
 
 # ------------------------------------------------------------------------ explorer
@@ -195,6 +195,7 @@ class Explorer:
         self.us_sum = 0.0
         self.us_max = (0.0, "")
         self.n_timeouts = 0
+        self.n_retimed = 0
         self.brel = None
 
     def run_mode(self, b, inputs, mode, keep=0):
@@ -212,6 +213,14 @@ class Explorer:
         """Run; where the sanitizer build stopped at an arithmetic-only UBSan report, take the
         release build's run of the same input instead.  Returns [(build, res, arith)]."""
         rs = self.run_mode(b, inputs, mode)
+        # a time-out in a batch is only a suspicion (the machine may be busy): re-run that input alone
+        # with ten times the limit before it is judged
+        slow = [i for i, r in enumerate(rs) if r.timeout]
+        if slow:
+            again = pmap(lambda i: self.rerun(b, inputs[i], mode, timeout_ms=100000), slow, workers=4)
+            for i, r2 in zip(slow, again):
+                rs[i] = r2
+            self.n_retimed += len(slow)
         out = [(b, r, False) for r in rs]
         if b["flavour"] == "asan":
             idx = [i for i, r in enumerate(rs) if arith_ub_only(r)]
@@ -511,32 +520,36 @@ def main():
         complete &= F("tokens-bare:m<=2", fam_tokens_bare(G.TOKENS, 1, 2), modes=("I", "E"))
         complete &= F("directives:k=3", fam_dlines(3, 3, lines=G.DLINES[:40]), modes=("I",))
         complete &= F("edit-token:all", fam_edits(files[14:], G.TOKENS, G.token_edits, "edit-token"), modes=("I",))
-        complete &= F("edit-byte:all", fam_edits(files[4:], G.A39, G.byte_edits, "edit-byte"), modes=("I",))
         # 2. the sanitizer build on the quick space and on what the release runs flagged
         complete &= quick_space(basan)
         complete &= sanitizer_pass("1")
-        # 3. depth 4 and double edits on the release build, flagged inputs on the sanitizer build
+        # 3. byte edits of the larger files, depth 4 and double edits on the release build, flagged
+        #    inputs on the sanitizer build
+        complete &= F("edit-byte:all", fam_edits(files[4:-1], G.A39, G.byte_edits, "edit-byte"), modes=("I",))
+        complete &= F("edit-byte:largest", fam_edits(files[-1:], G.A8, G.byte_edits, "edit-byte"), modes=("I",))
         complete &= F("edit2-token", fam_edits(files[:1], G.TOKENS30, G.double_token_edits, "edit2-token"), modes=("I",))
         complete &= F("edit2-byte", fam_edits(files[:1], G.A8, G.double_byte_edits, "edit2-byte"), modes=("I",))
         complete &= F("tokens:m=4", fam_tokens(G.TOKENS30, 4, 4), modes=("I",))
         complete &= F("bytes:n=4", fam_bytes(G.A32, 4, 4), modes=("I",))
         complete &= sanitizer_pass("2")
         bounds = ("release build: bytes n<=3 over 39 symbols, n=4 over 32; tokens m<=3 over 47, m=4 over 30; "
-                  "directive lines k<=2 over %d, k=3 over 40; single byte and token edits of all %d corpus "
-                  "files; double byte (8 symbols) and token (30 tokens) edits of the smallest file; sanitizer "
+                  "directive lines k<=2 over %d, k=3 over 40; single token edits and single byte edits (39 "
+                  "symbols; 8 for the largest file) of all %d corpus files; double byte (8 symbols) and token "
+                  "(30 tokens) edits of the smallest file; sanitizer "
                   "build: quick space + %d inputs flagged by the release run"
                   % (len(G.DLINES), len(files), len(seen_flagged)))
 
     ex.cross_check()
     ex.report(builds)
     ck.extra["unjudged_arithmetic_ub"] = ex.arith_unjudged
+    ck.extra["batch_timeouts_rerun_alone"] = ex.n_retimed
     ck.extra["process_model"] = ("one process per input; fork server (harness/c15fs.c) forks the tool right "
                                  "before main(); sample and all failures re-run with plain fork/exec")
     if ck.evaluations < 1000 and not ck.only:
         raise HarnessError("only %d executions: generators broken" % ck.evaluations)
     return ck.finish(
         rule="one case = one execution of interrogate / parse_file on one input in its own process; "
-             "non-trivial = the run wrote a diagnostic to stderr or produced all three output files",
+             "non-trivial = the run printed an error or warning diagnostic, or produced all three output files",
         exhaustive=bool(complete),
         bound=bounds,
         assumptions=["inputs beyond the stated bounds are not claimed",
